@@ -114,6 +114,7 @@ type recBackend struct {
 	// ListErrAfter >= 0 injects ListErr after that many items.
 	ListErrAfter int
 	ListErr      error
+	ListErrItem  bool // the error pair of a failing listing carries the item it failed at (a Seq may deliver both)
 	UploadID     string
 	WriterBuf    []byte // initial content of writers (for resume)
 	Chunk        int
@@ -166,10 +167,14 @@ func (b *recBackend) writer(id string) (ociregistry.BlobWriter, error) {
 	return w, nil
 }
 
-func recSeq[T any](items []T, errAfter int, err error) ociregistry.Seq[T] {
+func recSeq[T any](items []T, errAfter int, err error, withItem ...bool) ociregistry.Seq[T] {
 	return func(yield func(T, error) bool) {
 		for i, x := range items {
 			if errAfter == i && err != nil {
+				if len(withItem) > 0 && withItem[0] {
+					yield(x, err) // the item the listing failed at travels with the error
+					return
+				}
 				yield(*new(T), err)
 				return
 			}
@@ -308,7 +313,7 @@ func (b *recBackend) Funcs() *ociregistry.Funcs {
 			if b.Err != nil {
 				return ociregistry.ErrorSeq[string](b.Err)
 			}
-			return recSeq(filterAfter(b.Repos, startAfter), b.ListErrAfter, b.ListErr)
+			return recSeq(filterAfter(b.Repos, startAfter), b.ListErrAfter, b.ListErr, b.ListErrItem)
 		},
 		Tags_: func(ctx context.Context, repo string, startAfter string) ociregistry.Seq[string] {
 			b.log(recCall{Method: "Tags", Repo: repo, StartAfter: startAfter, ctx: ctx})
